@@ -66,7 +66,7 @@ impl IdTable {
     }
 }
 
-const TEMPLATES: [(&str, &str); 4] = [("B0:%L[0]", "%R[0]"), ("%L[0]", "%R[1]"), ("B1:%L[0],%L?[1]", "%R?[1]"), ("%L[0]", "%R[0]")];
+const TEMPLATES: [(&str, &str); 5] = [("B0:%L[0]", "%R[0]"), ("%L[0]", "%R[1]"), ("B1:%L[0],%L?[1]", "%R?[1]"), ("%L[0]", "%R[0]"), ("B2:%L?[1],%L?[2]", "B2:%R?[2],%R?[1]")];
 
 /// model.def line menu: (weight text, feature text)
 const MODEL_LINES: [(&str, &str); 18] = [
@@ -94,7 +94,7 @@ const MODEL_LINES: [(&str, &str); 18] = [
 pub fn run(tier: Tier) -> i32 {
     let mut rep = Report::new("C20", tier);
     let tables = id_tables();
-    let tsets: Vec<Vec<usize>> = vec![vec![0], vec![1], vec![2], vec![0, 1], vec![0, 2], vec![1, 2], vec![0, 1, 2], vec![3], vec![0, 3]];
+    let tsets: Vec<Vec<usize>> = vec![vec![0], vec![1], vec![2], vec![0, 1], vec![0, 2], vec![1, 2], vec![0, 1, 2], vec![3], vec![0, 3], vec![4, 0], vec![4, 2, 1]];
     let factors = [100.0f64, 700.0];
     let nmask = 1usize << MODEL_LINES.len();
     let mut tasks = vec![];
